@@ -18,4 +18,6 @@ MUTANTS = [
     M('C16', 'address map prefers the longest label', BRK, "            if len(label) >= len(address_to_label[address]):", "            if len(label) <= len(address_to_label[address]):", 'C16.RESOLVE'),
     M('C16', 'start labels inserted even where a label sits', PRE, "            if address not in self.addresses_with_labels:\n                self.insert_label(label, code_position, address=address)",
       "            if True:\n                self.insert_label(label, code_position, address=address)", 'C16.START-LABELS'),
+    M('C16', 'wflip label counter restarts per segment (seed C16_2)', 'flipjump/assembler/assembler.py', "        self.current_address = self.first_address\n\n        self.padding_ops_indices.clear()\n\n    def insert_reserve_bits", "        self.current_address = self.first_address\n        self.wflips_so_far = 0\n\n        self.padding_ops_indices.clear()\n\n    def insert_reserve_bits", 'C16.WRITERS'),
+    M('C16', 'EQ wflip label counter initialised through an annotation', 'flipjump/assembler/assembler.py', "        self.wflips_so_far = 0\n", "        self.wflips_so_far: int = 0\n", None),
 ]
